@@ -581,6 +581,10 @@ type monitor struct {
 	// authentication still counts stays open until the server shows it.
 	lost          bool
 	authUncertain bool
+	// errSlack: refusals that a server may or may not count against the
+	// connection's budget of malformed commands (a line the model takes for a
+	// well-formed command but that a stricter parser refuses as malformed)
+	errSlack int
 	pendingBegin  bool // transfer open, its Data call has not been seen to begin yet
 
 	nNew, nMail, nRcpt, nData, nSASL int
@@ -793,6 +797,21 @@ func (m *monitor) step(s stepRec) string {
 	case "greet", "helo":
 		if cmd.Op == "helo" && m.cfg.LMTP {
 			return m.refuse(s, "HELO on an LMTP server")
+		}
+		if hasCtlOctet(cmd.Arg) && len(begins(s.Events, "NewSession")) == 0 && len(s.Replies) >= 1 && s.Replies[0].Class() == 5 {
+			// a name with a control character: taking it (it is handed to
+			// the backend and echoed, sanitised) and refusing the line as
+			// malformed are both answers; a refusal may count as an error
+			m.unspecified++
+			m.classes["unspecified_greeting_with_control_character"] = true
+			m.errSlack++
+			if len(s.Replies) == 1 && !s.Closed {
+				return noWork()
+			}
+			if m.errors+m.errSlack > 3 && len(s.Replies) == 2 && s.Replies[1].Code == 500 && s.Closed {
+				return noWork()
+			}
+			return fmt.Sprintf("%s: refused, but with replies %v closed=%v", cmd, replyCodes(s.Replies), s.Closed)
 		}
 		if m.session {
 			if e := one(250); e != "" {
@@ -1202,6 +1221,11 @@ func (m *monitor) step(s stepRec) string {
 			}
 			return ""
 		}
+		if m.errors+m.errSlack > 3 && len(s.Replies) == 2 && s.Replies[0].Class() == 5 && s.Replies[1].Code == 500 && s.Closed {
+			// the budget may be used up already (see errSlack)
+			m.classes["error_threshold_with_slack"] = true
+			return ""
+		}
 		if len(s.Replies) != 1 || s.Replies[0].Class() != 5 {
 			return fmt.Sprintf("%s: expected a single 5xx reply, got %v", cmd, replyCodes(s.Replies))
 		}
@@ -1211,6 +1235,15 @@ func (m *monitor) step(s stepRec) string {
 		return ""
 	}
 	return "monitor: unknown op " + cmd.Op
+}
+
+func hasCtlOctet(s string) bool {
+	for i := 0; i < len(s); i++ {
+		if s[i] < 0x20 || s[i] == 0x7f {
+			return true
+		}
+	}
+	return false
 }
 
 // traceInvariants are checked on the whole lock-step run independently of the
